@@ -36,6 +36,12 @@ CHECKS['C04'] = (
     'Every result of every call is judged against the schema its symbol names (head right, slash of crossed composition, '
     'instantiation of triples); unary labels judged against the input shape; held-on-observed.',
     'Trusts vlib/schemas_ja.py; all S/NP atoms carry triples.', '§4 C04')
+CHECKS['C14'] = (
+    'purity/stability/gate/nb/unary-table monitors around the real rule functions; identical workloads evaluated in fresh interpreters under '
+    'different PYTHONHASHSEED values and compared by per-call digests',
+    'Arguments fingerprinted before/after, calls repeated, seen-rule gate and nb-independence compared with the unrestricted call, unary '
+    'results compared with the table; 6 (quick) / 24 (thorough) hash seeds per input block; held-on-observed.',
+    'Hash seeds and inputs are sampled; in-domain = one feature system per grammar.', '§4 C14')
 
 NOT_YET = {}
 
